@@ -11,7 +11,7 @@ with the same accessors, count by 1) on every path to the extraction; the iterat
 BTreeMap keyed by Reverse<Key> whose Ord compares the tip/gas ratio first; that map is mutated only
 through new_executable_transaction / on_removed_transaction_inner; in
 Pool::extract_transactions_for_block every extracted entry is recorded in the extracted outputs,
-has its inputs marked spent and is removed from the pool's components. (4) a dependent of a committed / preconfirmed transaction becomes executable only on the edge where it has no remaining parent in the pool; the promotion list is never bulk-extended.
+has its inputs marked spent and is removed from the pool's components. (4) a dependent of a committed / preconfirmed transaction becomes executable only on the edge where it has no remaining parent in the pool; the promotion list is never bulk-extended. The count / gas / size budgets are re-tested between two extractions of one pass (count by `== 0` / `> 0`, gas and size also by the per-transaction fit test); the dependency test concerns the promoted dependent.
 """
 NOT_DECIDED = """Optimality and tie-breaking values; mutual conflict-freedom is C16; parent-before-child is C17."""
 
